@@ -209,6 +209,15 @@ func dump(P *Prog, what string) {
 		}
 		sort.Strings(us)
 		fmt.Println(strings.Join(us, "\n"))
+	case "names":
+		// regenerates names_frozen.go: run after confirming rules and tables on a tree
+		fmt.Println("package main\n\n// Code generated by `pebcheck dump names`; the declared functions of the tree the rules and\n// tables were confirmed on, with their fingerprints (see aliasRenamed in load.go).\nvar frozenFuncs = map[string]string{")
+		for _, fn := range P.Funcs {
+			if fn.Parent() == nil && fn.Synthetic == "" {
+				fmt.Printf("\t%q: %q,\n", fnName(fn), sigString(fn))
+			}
+		}
+		fmt.Println("}")
 	case "ext":
 		for _, fn := range P.Funcs {
 			for _, e := range P.CG.Ext[fn] {
